@@ -122,7 +122,7 @@ pub fn streams(tier: &str) -> Vec<StreamGen> {
     // 2. multi-field templates over the class representatives
     {
         let reps = v9_reps();
-        let maxlen = if thorough { 4 } else { 2 };
+        let maxlen = if thorough { 5 } else { 2 };
         let nl = list_count(reps.len(), maxlen);
         let r2 = reps.clone();
         let mk = move |i: u64| -> Option<Vec<Vec<u8>>> {
@@ -177,9 +177,9 @@ pub fn streams(tier: &str) -> Vec<StreamGen> {
         };
                 v.push(stream_gen("v9-options-templates", ns * no * 16, mk));
     }
-    // 4. flowset mixes: all sequences of <= 3 (thorough 4) sets over a 10-set menu x prior context x count convention
+    // 4. flowset mixes: all sequences of <= 3 (thorough 5) sets over a 10-set menu x prior context x count convention
     {
-        let maxlen = if thorough { 5 } else { 3 };
+        let maxlen = if thorough { 6 } else { 3 };
         let nl = list_count(10, maxlen);
         let mk = move |i: u64| -> Vec<Vec<u8>> {
             let d = digits(i, &[nl, 2, 2]);
@@ -247,8 +247,8 @@ pub fn run(tier: &str) -> i32 {
         prop: "C04".into(),
         tier: tier.into(),
         level: "model_checking",
-        rule: "every index of each space is a conformant V9 stream (1..3 calls on one fresh parser) built from finite menus: every field type 1..=520(+extras) x every supported width x value menu x delivery x padding; all lists of class representatives of length <= 2 (thorough 4) x records x padding x delivery; all scope/option lists; all flowset sequences of length <= 3 (thorough 5) over a 10-set menu x prior context x count convention. Each call's result is compared with the RFC 3954 reference decode; an outcome is distinct by the hash of the canonical results of all calls".into(),
-        bounds: json!({"history_depth": 3, "multi_field_list_len": if tier=="thorough" {4} else {2}, "flowset_sequence_len": if tier=="thorough" {5} else {3}, "records_per_flowset": "1..=3", "padding": "0..=3"}),
+        rule: "every index of each space is a conformant V9 stream (1..3 calls on one fresh parser) built from finite menus: every field type 1..=520(+extras) x every supported width x value menu x delivery x padding; all lists of class representatives of length <= 2 (thorough 5) x records x padding x delivery; all scope/option lists; all flowset sequences of length <= 3 (thorough 6) over a 10-set menu x prior context x count convention. Each call's result is compared with the RFC 3954 reference decode; an outcome is distinct by the hash of the canonical results of all calls".into(),
+        bounds: json!({"history_depth": 3, "multi_field_list_len": if tier=="thorough" {5} else {2}, "flowset_sequence_len": if tier=="thorough" {6} else {3}, "records_per_flowset": "1..=3", "padding": "0..=3"}),
         assumptions: vec!["field number -> (name, value class) is the library's own table (pinned by its lookup snapshot tests)".into(), "count field read as an upper bound on flowsets (C11's reading); a packet extends to the end of the buffer otherwise".into()],
         trusted_base: vec!["refmodel::ref_v9 (RFC 3954 reference decoder) and refmodel::decode".into()],
         required_tags: vec![],
